@@ -7,6 +7,10 @@ def commits():
     return [l.split()[0] for l in out if l.split(" ", 1)[1].startswith("simhook")]
 
 CHECKS = {
+ "C06": dict(cat="exploration", ref="5.4",
+   text="Seeded histories of bind/copy/nest/pass/mutate/observe events over arrays and maps of sizes 0..20 (both sides of the 8-element/4-pair thresholds) run as inputs on one real session; after every event every live name is observed as a typed canonical tree and compared with a copy-on-bind reference model; failing operations must change nothing and an assignment cancelled by a deadline fault at a random virtual tick must leave old or new value. Recorded in-place-mutation findings on large containers are matched by (kind, container, size class, mutation family), counted, and the session re-synchronised so the search continues; any mismatch on small containers or on another path is a VIOLATION.",
+   note="The model encodes copy-on-bind value semantics as the documented behaviour; elements are integers or nested containers, map keys strings.",
+   tech="deterministic simulation: seeded operation histories + injected cancellation, checked after every step against a small executable value-semantics model"),
  "C10": dict(cat="exploration", ref="5.6",
    text="Seeded search over session histories: each base history of succeeding inputs is executed on the real interpreter with and without side-effect-free failing inputs (language error, Go runtime panic in a function, depth overflow, deadline at a PRNG-chosen virtual tick, injected allocation refusal, writer error) inserted at random positions/multiplicities; every later input must produce identical output/value/outcome (and identical tick count with the cache off), and final globals must agree. Sampling, not proof.",
    note="Trusts the harness generator's construction of side-effect-free failing inputs and the virtual clock (1 tick per evaluated node) standing for real deadlines; error wording is not compared.",
@@ -25,6 +29,10 @@ CHECKS = {
    text="Seeded sequential-history refinement: random operation histories (set/update/delete/merge/rest/range/literal with duplicates/permuted rebuild) over per-run universes of 3..16 mixed-type keys are applied in lock-step to object.Map via the Go API, to a variable of a real grol session via source text, and to an association-list model; after every operation length, lookup of every key, iteration order, printed form, equality with a canonically built twin and immutability of + operands are compared. No faults apply (stated); sampled, not enumerated.",
    note="Cross-type key rank is learned from one canonical build per run (history independence rather than a hard-coded rank); int/float keys of equal value, NaN and -0 are left to C12.",
    tech="deterministic simulation harness used as seeded history search: sequential refinement of the real map implementation (API and language level) against a small executable reference model"),
+ "C19": dict(cat="exploration", ref="5.13",
+   text="Seeded attack histories: constants of every value type incl. arrays/maps on both sides of the size thresholds are bound, then hit by random sequences of 26 kinds of mutation attempts (assignment forms, ++/--, index/dot assignment, element deletion, loop variable, parameter name, nested functions and loops, self-append, catch-wrapped, alias, mutating callee, cancelled slow assignment) with explicit del+rebind interleaved; two real sessions (registers on/off) run in lock-step and after every attempt every bound constant is re-observed in both; outcome classes must agree between the modes. A monitor mode re-observes every upper-case name of general generated sessions after every input. Recorded alias-based findings (rooted in C06) are matched narrowly and the search continues past them.",
+   note="An attempt may fail or be a no-op; re-binding an equal value is allowed by the language. Attempts on a name that is not currently bound are skipped.",
+   tech="deterministic simulation: seeded attack histories with injected cancellation, invariant (constant unchanged) checked after every step on both register configurations"),
  "C20": dict(cat="exploration", ref="5.14",
    text="Seeded sequential-history refinement of trie.Trie against a Go set: insertion histories biased to prefix/extension relations over 2-4 letter alphabets incl. bytes 0x00/0xFF, with Contains checked for every universe word and PrefixAll (words, byte order, common-prefix length) for every prefix after each insertion; plus real sessions with a registered trie where after every succeeding or failing input the index must equal the initial content plus name/name+' '/name+'(' of every newly bound global, and completion via PrefixAll(line[:pos]) only extends typed text towards defined words. No faults apply (stated).",
    note="The terminal printing part of repl/completion.go is not driven (needs a tty); the simulator calls the Trie.PrefixAll it delegates to.",
